@@ -20,6 +20,7 @@ func runC02(c *Check, tier string) {
 	ruleR02b(c)
 	ruleR02c(c, "R02c")
 	ruleR02d(c, "R02d")
+	ruleRecordCacheIndependent(c, "R02e")
 }
 
 // impureSources: values that depend on where/when/who runs the build.
